@@ -226,8 +226,8 @@ Proof.
   - destruct (Nat.eqb_spec k' a) as [E|E]; cbn; [|reflexivity]. subst a. destruct (Nat.eqb_spec k' k); [congruence|reflexivity].
 Qed.
 
-Definition lkind (l : lcmd) : cmd := match l with LPut k v => Put k v | LIncr k d _ => Incr k d | LDel k => Del k | LPutIf k v w _ => PutIf k v w end.
-Definition lkey (l : lcmd) : nat := match l with LPut k _ | LIncr k _ _ | LDel k | LPutIf k _ _ _ => k end.
+Definition lkind (l : lcmd) : cmd := match l with LPut k v => Put k v | LIncr k d _ => Incr k d | LDel k => Del k | LPutIf k v w _ => PutIf k v w | LTouch k _ => Touch k end.
+Definition lkey (l : lcmd) : nat := match l with LPut k _ | LIncr k _ _ | LDel k | LPutIf k _ _ _ | LTouch k _ => k end.
 Definition pending (x : txn) : list cmd := match tphase x with PBody p => p | _ => [] end.
 Definition touched (x : txn) (k : nat) : bool := match lookup (tov x) k with Some _ => true | None => memk k (tdel x) end.
 
@@ -250,7 +250,8 @@ Lemma lapply_touched ov dl l ov' dl' k : lapply (ov, dl) l = (ov', dl') ->
   k = lkey l \/ (match lookup ov k with Some _ => true | None => memk k dl end) = true.
 Proof.
   intros E H. destruct (Nat.eq_dec k (lkey l)) as [->|Hne]; [left; reflexivity|right].
-  destruct l as [k0 v|k0 d b|k0|k0 v w [|]]; cbn in E, Hne; injection E as <- <-.
+  destruct l as [k0 v|k0 d b|k0|k0 v w [|]|k0 base]; cbn in E, Hne;
+    [| | | | |destruct (lookup ov k0); [|destruct (memk k0 dl); [|destruct base as [[b|]|]]]]; injection E as <- <-; try exact H.
   - rewrite lookup_put in H. destruct (Nat.eqb_spec k k0); [contradiction|]. rewrite memk_remk in H.
     destruct (lookup ov k); [reflexivity|]. apply andb_true_iff in H as [H _]. exact H.
   - rewrite lookup_put in H. destruct (Nat.eqb_spec k k0); [contradiction|]. rewrite memk_remk in H.
@@ -260,7 +261,7 @@ Proof.
     cbn in H. destruct (Nat.eqb_spec k k0); [contradiction|exact H].
   - rewrite lookup_put in H. destruct (Nat.eqb_spec k k0); [contradiction|]. rewrite memk_remk in H.
     destruct (lookup ov k); [reflexivity|]. apply andb_true_iff in H as [H _]. exact H.
-  - exact H.
+  - rewrite lookup_put in H. destruct (Nat.eqb_spec k k0); [contradiction|exact H].
 Qed.
 
 Lemma tinv_write x l pend ov dl res bud :
@@ -315,7 +316,7 @@ Proof.
       * assert (Hlock : is_write cm = true -> tmode x = Fast \/ heldb (theld x) (lock_key (tmode x) (cmd_key cm)) = true).
         { intro Hw. rewrite Hw in Hneed. destruct (tmode x); [left; reflexivity| |];
             right; cbn in Hneed; apply negb_false_iff in Hneed; exact Hneed. }
-        unfold body_cmd. destruct cm as [k|k v|k d|k|n|k v want].
+        unfold body_cmd. destruct cm as [k|k v|k d|k|n|k v want|k].
         -- destruct (memk k (tdel x)); [|destruct (lookup (tov x) k)]; cbn; rewrite upd_same; cbn; intros [= <-];
              rewrite app_nil_r; eapply tinv_skip; eauto.
         -- destruct (lapply (tov x, tdel x) (LPut k v)) as [ov dl] eqn:El. cbn. rewrite upd_same. cbn. intros [= <-].
@@ -330,6 +331,9 @@ Proof.
                                   | Some b => b | None => isSomeZ (store c k) end) want).
            destruct (lapply (tov x, tdel x) (LPutIf k v want hit)) as [ov dl] eqn:El. cbn. rewrite upd_same. cbn. intros [= <-].
            eapply (tinv_write x (LPutIf k v want hit)); eauto.
+        -- set (base := if match lookup (tov x) k with Some _ => false | None => negb (memk k (tdel x)) end then Some (store c k) else None).
+           destruct (lapply (tov x, tdel x) (LTouch k base)) as [ov dl] eqn:El. cbn. rewrite upd_same. cbn. intros [= <-].
+           eapply (tinv_write x (LTouch k base)); eauto.
     + destruct (tdel x) eqn:Hd; cbn; rewrite upd_same; cbn; intros [= <-]; unfold TInv, pending, touched in *; rewrite ?Hph in *; cbn;
         rewrite <- Hd in T1 at 1; repeat split; try assumption; try apply T4.
     + destruct (tov x) eqn:Ho; cbn; rewrite upd_same; cbn; intros [= <-]; unfold TInv, pending, touched in *; rewrite ?Hph in *; cbn;
@@ -486,12 +490,14 @@ Inductive data_action (c : cfg) (i : nat) (c' : cfg) : Prop :=
 | DA_begin x' b rest : store c' = store c -> wlog c' = wlog c -> cur (tasks c i) = None -> items (tasks c i) = Txn b :: rest ->
     cur (tasks c' i) = Some x' -> tov x' = [] -> tdel x' = [] -> texec x' = [] -> tblock x' = b -> data_action c i c'
 | DA_direct cm rest : cur (tasks c i) = None -> cur (tasks c' i) = None -> items (tasks c i) = Direct cm :: rest -> is_write cm = true ->
-    store c' = direct_store (store c) cm -> wlog c' = wlog c ++ [(i, O, WDirect, [match cm with Put k v => LPut k v | Incr k d => LIncr k d (Some (store c k)) | PutIf k v w => LPutIf k v w (Bool.eqb (isSomeZ (store c k)) w) | _ => LDel (cmd_key cm) end])] ->
+    store c' = direct_store (store c) cm -> wlog c' = wlog c ++ [(i, O, WDirect, [match cm with Put k v => LPut k v | Incr k d => LIncr k d (Some (store c k)) | PutIf k v w => LPutIf k v w (Bool.eqb (isSomeZ (store c k)) w) | Touch k => LTouch k (Some (store c k)) | _ => LDel (cmd_key cm) end])] ->
     data_action c i c'
 | DA_write x x' l pend : store c' = store c -> wlog c' = wlog c -> cur (tasks c i) = Some x -> cur (tasks c' i) = Some x' ->
     tphase x = PBody (lkind l :: pend) -> tphase x' = PBody pend ->
     (tov x', tdel x') = lapply (tov x, tdel x) l -> texec x' = texec x ++ [l] -> tblock x' = tblock x ->
     (forall k0 d base, l = LIncr k0 d base ->
+        base = if match lookup (tov x) k0 with Some _ => false | None => negb (memk k0 (tdel x)) end then Some (store c k0) else None) ->
+    (forall k0 base, l = LTouch k0 base ->
         base = if match lookup (tov x) k0 with Some _ => false | None => negb (memk k0 (tdel x)) end then Some (store c k0) else None) ->
     data_action c i c'
 | DA_clear x x' : store c' = store c -> wlog c' = wlog c -> cur (tasks c i) = Some x -> cur (tasks c' i) = Some x' ->
@@ -519,22 +525,26 @@ Proof.
       * destruct (lock_free c _).
         -- keep Hcur. cbn. rewrite Hph. split; discriminate.
         -- destruct (match tbudget x with Some n => n | None => attempts c end) as [|[|n]]; keep Hcur; cbn; rewrite Hph; split; discriminate.
-      * unfold body_cmd. destruct cm as [k|k v|k d|k|n|k v want].
+      * unfold body_cmd. destruct cm as [k|k v|k d|k|n|k v want|k].
         -- destruct (memk k (tdel x)); [|destruct (lookup (tov x) k)]; (eapply DA_keep;
              [reflexivity|reflexivity|exact Hcur|cbn; rewrite upd_same; reflexivity|reflexivity|reflexivity|cbn; apply app_nil_r|cbn; rewrite Hph; split; discriminate|reflexivity]).
         -- destruct (lapply (tov x, tdel x) (LPut k v)) as [ov dl] eqn:El.
-           eapply (DA_write c i _ x _ (LPut k v) pend); [reflexivity|reflexivity|exact Hcur|cbn; rewrite upd_same; reflexivity|exact Hph|reflexivity|cbn [tov tdel]; symmetry; exact El|reflexivity|reflexivity|discriminate].
+           eapply (DA_write c i _ x _ (LPut k v) pend); [reflexivity|reflexivity|exact Hcur|cbn; rewrite upd_same; reflexivity|exact Hph|reflexivity|cbn [tov tdel]; symmetry; exact El|reflexivity|reflexivity|discriminate|discriminate].
         -- set (base := if match lookup (tov x) k with Some _ => false | None => negb (memk k (tdel x)) end then Some (store c k) else None).
            destruct (lapply (tov x, tdel x) (LIncr k d base)) as [ov dl] eqn:El.
-           eapply (DA_write c i _ x _ (LIncr k d base) pend); [reflexivity|reflexivity|exact Hcur|cbn; rewrite upd_same; reflexivity|exact Hph|reflexivity|cbn [tov tdel]; symmetry; exact El|reflexivity|reflexivity|].
+           eapply (DA_write c i _ x _ (LIncr k d base) pend); [reflexivity|reflexivity|exact Hcur|cbn; rewrite upd_same; reflexivity|exact Hph|reflexivity|cbn [tov tdel]; symmetry; exact El|reflexivity|reflexivity| |discriminate].
            intros k0 d0 b0 [= <- <- <-]. reflexivity.
         -- destruct (lapply (tov x, tdel x) (LDel k)) as [ov dl] eqn:El.
-           eapply (DA_write c i _ x _ (LDel k) pend); [reflexivity|reflexivity|exact Hcur|cbn; rewrite upd_same; reflexivity|exact Hph|reflexivity|cbn [tov tdel]; symmetry; exact El|reflexivity|reflexivity|discriminate].
+           eapply (DA_write c i _ x _ (LDel k) pend); [reflexivity|reflexivity|exact Hcur|cbn; rewrite upd_same; reflexivity|exact Hph|reflexivity|cbn [tov tdel]; symmetry; exact El|reflexivity|reflexivity|discriminate|discriminate].
         -- eapply DA_keep; [reflexivity|reflexivity|exact Hcur|cbn; rewrite upd_same; reflexivity|reflexivity|reflexivity|cbn; apply app_nil_r|cbn; rewrite Hph; split; discriminate|reflexivity].
         -- set (hit := Bool.eqb (match (match lookup (tov x) k with Some _ => Some true | None => if memk k (tdel x) then Some false else None end) with
                                   | Some b => b | None => isSomeZ (store c k) end) want).
            destruct (lapply (tov x, tdel x) (LPutIf k v want hit)) as [ov dl] eqn:El.
-           eapply (DA_write c i _ x _ (LPutIf k v want hit) pend); [reflexivity|reflexivity|exact Hcur|cbn; rewrite upd_same; reflexivity|exact Hph|reflexivity|cbn [tov tdel]; symmetry; exact El|reflexivity|reflexivity|discriminate].
+           eapply (DA_write c i _ x _ (LPutIf k v want hit) pend); [reflexivity|reflexivity|exact Hcur|cbn; rewrite upd_same; reflexivity|exact Hph|reflexivity|cbn [tov tdel]; symmetry; exact El|reflexivity|reflexivity|discriminate|discriminate].
+        -- set (base := if match lookup (tov x) k with Some _ => false | None => negb (memk k (tdel x)) end then Some (store c k) else None).
+           destruct (lapply (tov x, tdel x) (LTouch k base)) as [ov dl] eqn:El.
+           eapply (DA_write c i _ x _ (LTouch k base) pend); [reflexivity|reflexivity|exact Hcur|cbn; rewrite upd_same; reflexivity|exact Hph|reflexivity|cbn [tov tdel]; symmetry; exact El|reflexivity|reflexivity|discriminate|].
+           intros k0 b0 [= <- <-]. reflexivity.
     + destruct (tdel x) eqn:Hd.
       * keep Hcur. cbn. rewrite Hph. split; discriminate.
       * eapply (DA_del c i _ x); [exact Hcur|cbn; rewrite upd_same; reflexivity|exact Hph|reflexivity|cbn; rewrite Hd; reflexivity|reflexivity|reflexivity|reflexivity|reflexivity|reflexivity].
@@ -546,7 +556,7 @@ Proof.
       * keep Hcur. cbn. rewrite Hph. split; reflexivity.
   - destruct (items (tasks c i)) as [|[cm|b] rest] eqn:Hit.
     + apply DA_out; try reflexivity. exact Hcur.
-    + unfold direct. destruct cm as [k|k v|k d|k|n|k v want];
+    + unfold direct. destruct cm as [k|k v|k d|k|n|k v want|k];
         try (apply DA_out; try reflexivity; cbn; rewrite upd_same; reflexivity);
         (eapply (DA_direct c i _ _ rest); [exact Hcur|cbn; rewrite upd_same; reflexivity|exact Hit|reflexivity|reflexivity|reflexivity]).
     + eapply (DA_begin c i _ _ b rest); [reflexivity|reflexivity|exact Hcur|exact Hit|cbn; rewrite upd_same; reflexivity|reflexivity|reflexivity|reflexivity|reflexivity].
@@ -567,12 +577,12 @@ Fixpoint committed (k : nat) (log : list (nat * nat * wkind * list lcmd)) : Z :=
   | _ :: r => committed k r
   end.
 Lemma incsum_app k a b : incsum k (a ++ b) = incsum k a + incsum k b.
-Proof. induction a as [|[| | |] a IH]; cbn; try assumption; lia. Qed.
+Proof. induction a as [|[| | | |] a IH]; cbn; try assumption; lia. Qed.
 Lemma committed_app k a b : committed k (a ++ b) = committed k a + committed k b.
 Proof. induction a as [|[[[? ?] []] ?] a IH]; cbn; try assumption; lia. Qed.
 
 (* the programs: every block runs in mode m; inside blocks the key k is written by increments only; outside blocks not at all *)
-Definition wf_cmd (k : nat) (c : cmd) : Prop := is_write c = true -> cmd_key c = k -> exists d, c = Incr k d.
+Definition wf_cmd (k : nat) (c : cmd) : Prop := is_write c = true -> cmd_key c = k -> (exists d, c = Incr k d) \/ c = Touch k.
 Definition wf_block (m : mode) (k : nat) (b : block) : Prop := bmode b = m /\ Forall (wf_cmd k) (bcmds b).
 Definition wf_item (m : mode) (k : nat) (it : item) : Prop :=
   match it with Direct c => is_write c = true -> cmd_key c <> k | Txn b => wf_block m k b end.
@@ -633,7 +643,7 @@ Proof.
   set (c' := fst (run_task c i h)) in *.
   assert (Oth : forall j y, j <> i -> cur (tasks c' j) = Some y -> cur (tasks c j) = Some y) by (intros j y Hj Hy; rewrite F in Hy; assumption).
   destruct A as [x x' Hs Hw Hc Hc' Ho Hd He Hp Hb | Hs Hw Hc' | x' b rest Hs Hw Hc Hit Hc' Ho Hd He Hb | cm rest Hc Hc' Hit Hwr Hs Hw
-                 | x x' l pend Hs Hw Hc Hc' Hph Hph' Hl He Hb Hbase | x x' Hs Hw Hc Hc' Ho Hd Hp Hemp Hb
+                 | x x' l pend Hs Hw Hc Hc' Hph Hph' Hl He Hb Hbase Hbase2 | x x' Hs Hw Hc Hc' Ho Hd Hp Hemp Hb
                  | x x' Hc Hc' Hph Hph' Hs Hw Ho Hd He Hb | x x' Hc Hc' Hph Hph' Hs Hw Ho Hd Hb].
   - (* keep *) unfold CI. rewrite Hs, Hw. repeat split; [exact C1| | |].
     + intros j y v Hy Hv. destruct (Nat.eq_dec j i) as [->|Hne]; [|eauto]. rewrite Hc' in Hy. injection Hy as <-. rewrite Ho in Hv. rewrite He. eauto.
@@ -661,8 +671,33 @@ Proof.
     unfold CI. rewrite Hs, Hw. split; [exact C1|].
     destruct (Nat.eq_dec (lkey l) k) as [Hk|Hk].
     + (* on k: it is an increment *)
-      assert (Hck : cmd_key (lkind l) = k) by (destruct l; exact Hk). destruct (Wb Hck) as (d & Hd).
-      destruct l as [k0 v|k0 d0 base|k0|k0 v w hit]; try discriminate. cbn in Hd. injection Hd as -> ->.
+      assert (Hck : cmd_key (lkind l) = k) by (destruct l; exact Hk). destruct (Wb Hck) as [(d & Hd)|Hd]; cycle 1.
+      { (* ... or a touch: the value read under the lock goes into the overlay unchanged *)
+        destruct l as [k0 v|k0 d0 base|k0|k0 v w hit|k0 base]; try discriminate. cbn in Hd. injection Hd as ->.
+        specialize (Hbase2 _ _ eq_refl). pose proof (C3 _ _ Hc) as Hnd. rewrite Hnd in Hbase2. cbn in Hbase2.
+        cbn in Hl. rewrite Hnd in Hl.
+        assert (Ein : incsum k (texec x') = incsum k (texec x)) by (rewrite He, incsum_app; cbn; lia).
+        assert (Same : tov x' = tov x -> tdel x' = tdel x ->
+                  (forall j y v, cur (tasks c' j) = Some y -> lookup (tov y) k = Some v -> v = val (store c k) + incsum k (texec y)) /\
+                  (forall j y, cur (tasks c' j) = Some y -> memk k (tdel y) = false) /\
+                  (forall j y, cur (tasks c' j) = Some y -> lookup (tov y) k = None -> tphase y <> PUnlock -> incsum k (texec y) = 0)).
+        { intros Ho' Hd'. repeat split.
+          - intros j y v Hy Hv. destruct (Nat.eq_dec j i) as [->|Hne]; [|eauto]. rewrite Hc' in Hy. injection Hy as <-. rewrite Ho' in Hv. rewrite Ein. eauto.
+          - intros j y Hy. destruct (Nat.eq_dec j i) as [->|Hne]; [|eauto]. rewrite Hc' in Hy. injection Hy as <-. rewrite Hd'. eauto.
+          - intros j y Hy Hv Hpu. destruct (Nat.eq_dec j i) as [->|Hne]; [|eauto]. rewrite Hc' in Hy. injection Hy as <-. rewrite Ho' in Hv. rewrite Ein.
+            eapply C4; eauto. rewrite Hph. discriminate. }
+        destruct (lookup (tov x) k) as [v1|] eqn:Elk.
+        - injection Hl as Ho' Hd'. apply Same; assumption.
+        - cbn in Hbase2. subst base. destruct (store c k) as [b|] eqn:Es.
+          + injection Hl as Ho' Hd'. repeat split.
+            * intros j y v Hy Hv. destruct (Nat.eq_dec j i) as [->|Hne]; [|eauto]. rewrite Hc' in Hy. injection Hy as <-.
+              rewrite Ho', lookup_put, Nat.eqb_refl in Hv. injection Hv as <-. rewrite Ein.
+              assert (Z0 : incsum k (texec x) = 0) by (eapply C4; eauto; rewrite Hph; discriminate). rewrite Z0. cbn. lia.
+            * intros j y Hy. destruct (Nat.eq_dec j i) as [->|Hne]; [|eauto]. rewrite Hc' in Hy. injection Hy as <-. rewrite Hd'. eauto.
+            * intros j y Hy Hv Hpu. destruct (Nat.eq_dec j i) as [->|Hne]; [|eauto]. rewrite Hc' in Hy. injection Hy as <-.
+              rewrite Ho', lookup_put, Nat.eqb_refl in Hv. discriminate.
+          + injection Hl as Ho' Hd'. apply Same; assumption. }
+      destruct l as [k0 v|k0 d0 base|k0|k0 v w hit|k0 base]; try discriminate. cbn in Hd. injection Hd as -> ->.
       specialize (Hbase _ _ _ eq_refl). pose proof (C3 _ _ Hc) as Hnd. rewrite Hnd in Hbase. cbn in Hbase.
       cbn in Hl. injection Hl as Ho' Hd'.
       repeat split.
@@ -678,17 +713,20 @@ Proof.
         rewrite Ho', lookup_put, Nat.eqb_refl in Hv. discriminate.
     + (* on another key *)
       assert (Elk : lookup (tov x') k = lookup (tov x) k).
-      { destruct l as [k0 v|k0 d0 base|k0|k0 v w [|]]; cbn in Hl, Hk; injection Hl as -> _; rewrite ?lookup_put, ?lookup_remove;
+      { destruct l as [k0 v|k0 d0 base|k0|k0 v w [|]|k0 base]; cbn in Hl, Hk;
+          [| | | | |destruct (lookup (tov x) k0); [|destruct (memk k0 (tdel x)); [|destruct base as [[b|]|]]]];
+          injection Hl as -> _; rewrite ?lookup_put, ?lookup_remove;
           try reflexivity; destruct (Nat.eqb_spec k k0); congruence. }
       assert (Edl : memk k (tdel x') = memk k (tdel x)).
-      { destruct l as [k0 v|k0 d0 base|k0|k0 v w [|]]; cbn in Hl, Hk; injection Hl as _ ->; rewrite ?memk_remk.
+      { destruct l as [k0 v|k0 d0 base|k0|k0 v w [|]|k0 base]; cbn in Hl, Hk;
+          [| | | | |destruct (lookup (tov x) k0); [|destruct (memk k0 (tdel x)) eqn:?; [|destruct base as [[b|]|]]]];
+          injection Hl as _ ->; rewrite ?memk_remk; try reflexivity.
         - destruct (Nat.eqb_spec k k0); [congruence|]. apply andb_true_r.
         - destruct (Nat.eqb_spec k k0); [congruence|]. apply andb_true_r.
         - destruct (memk k0 (tdel x)); [reflexivity|]. cbn. destruct (Nat.eqb_spec k k0); [congruence|reflexivity].
-        - destruct (Nat.eqb_spec k k0); [congruence|]. apply andb_true_r.
-        - reflexivity. }
+        - destruct (Nat.eqb_spec k k0); [congruence|]. apply andb_true_r. }
       assert (Ein : incsum k (texec x') = incsum k (texec x)).
-      { rewrite He, incsum_app. destruct l as [k0 v|k0 d0 base|k0|k0 v w hit]; cbn in *; try lia. destruct (Nat.eqb_spec k0 k); [congruence|lia]. }
+      { rewrite He, incsum_app. destruct l as [k0 v|k0 d0 base|k0|k0 v w hit|k0 base]; cbn in *; try lia. destruct (Nat.eqb_spec k0 k); [congruence|lia]. }
       repeat split.
       * intros j y v Hy Hv. destruct (Nat.eq_dec j i) as [->|Hne]; [|eauto]. rewrite Hc' in Hy. injection Hy as <-. rewrite Elk in Hv. rewrite Ein. eauto.
       * intros j y Hy. destruct (Nat.eq_dec j i) as [->|Hne]; [|eauto]. rewrite Hc' in Hy. injection Hy as <-. rewrite Edl. eauto.
